@@ -76,6 +76,22 @@ func VerifSyncBlock() {
 	if err := tx0.Commit(); err != nil {
 		panic(err)
 	}
+	// a conversion pUSD -> pXBT written in the previous block is in holding: it waits for the
+	// first block with rates (heights after the transaction activation only)
+	converter := vrt.KeyAddress(0, false)
+	var heldHash *factom.Bytes32
+	if height-1 > specTxActivation {
+		txh, _ := db.Begin()
+		vrtSetBalance(txh, converter, fat2.PTickerUSD, 5000)
+		he := vrtSignedConversion(vrtHash(0x4C), blockTime.Unix()-600, 1000, fat2.PTickerUSD, fat2.PTickerXBT, false)
+		if err := d.ApplyTransactionBlock(txh, vrtEBlock(height-1, blockTime.Unix()-600, []factom.Entry{he})); err != nil {
+			panic("held conversion: " + err.Error())
+		}
+		if err := txh.Commit(); err != nil {
+			panic(err)
+		}
+		heldHash = he.Hash
+	}
 
 	// ---- the verdicts
 	oprState := vrt.Choose("opr", 3) // 0 no OPR entry block, 1 graded without winners, 2 one winner
@@ -264,6 +280,19 @@ func VerifSyncBlock() {
 		} else {
 			// both, closed era, in band: the OPR's rates
 			vrt.Assert("C12.band-rule-of-the-era", uint64(usdRate) == oUSD)
+		}
+	}
+	// ---- the holding pass runs iff the block recorded rates
+	if heldHash != nil {
+		_, st := vrtStatus(tx, heldHash)
+		usd := uint64(vrtBalance(tx, converter, fat2.PTickerUSD))
+		if hasRates {
+			vrt.Cover("held-conversion-considered")
+			vrt.Assert("C07.held-conversion-is-considered-in-the-first-block-with-rates", st != 0)
+		} else {
+			vrt.Cover("held-conversion-waits")
+			vrt.Assert("C12.block-without-rates-executes-no-pending-conversion", st == 0 && usd == 5000)
+			vrt.Assert("C07.held-conversion-waits-for-a-block-with-rates", st == 0 && usd == 5000)
 		}
 	}
 	// ---- rewards and burns
